@@ -819,8 +819,8 @@ v("d39-twin-default-arg", "C04", SM,
 v("d40-one-element-list-unpacked", "C13", PBL,
   "                    raw_values = [contents]\n", "                    raw_values = contents.children\n")
 v("d40-kind-test-dropped", "C13", PBL,
-  "                if isinstance(contents, lark.tree.Tree) and (\n                    contents.data in [\"tuplelist_comp\", \"set_comp\"]\n                ):",
-  "                if isinstance(contents, lark.tree.Tree):")
+  "                elif isinstance(contents, lark.tree.Tree) and (\n                    contents.data in [\"tuplelist_comp\", \"set_comp\"]\n                ):",
+  "                elif isinstance(contents, lark.tree.Tree):")
 v("d40-twin-tuple-of-kinds", "C13", PBL,
   "                    contents.data in [\"tuplelist_comp\", \"set_comp\"]\n", "                    contents.data in (\"tuplelist_comp\", \"set_comp\")\n", expect="silent")
 
@@ -1120,3 +1120,18 @@ v("d126-sql-size-is-sum", "C09", SM, "    return \"COUNT(1)\"  # 0 over no rows 
 v("d126-sql-count-is-sum", "C09", SM, "    return f\"COUNT({e0})\"  # non-NULL entries, 0 over no rows", "    return f\"SUM(CASE WHEN {e0} IS NOT NULL THEN 1 ELSE 0 END)\"")
 
 v("d127-ungrouped-first-through-series-agg", "C09", PB, "                    if (len(op.group_by) < 1) and (transform_op in [\"first\", \"last\"]):", "                    if False:")
+
+v("d128-sqlite-math-raises", "C05", SQ, "        except (ValueError, OverflowError, ZeroDivisionError):\n            # math.log(0)", "        except (KeyError,):\n            # math.log(0)")
+
+v("d129-floor-division-on-sql-slash", "C05", SM, "    ratio = (expression.args[0].float_divide(expression.args[1])).floor()", "    ratio = (expression.args[0] / expression.args[1]).floor()")
+
+v("d130-where-raw-condition", "C05", PB, "    return numpy.where(_true_positions(cond), a, b)", "    return numpy.where(cond, a, b)")
+
+v("d131-polars-is-inf-null", "C03", PM, "        \"is_inf\": lambda x: x.is_infinite().fill_null(\n            False\n        ),", "        \"is_inf\": lambda x: x.is_infinite(),")
+
+ER2 = "expr_rep.py"
+PBLK = "parse_by_lark.py"
+v("d132-dictterm-keeps-foreign-scalars", "C12", ER2, "        self.value = {canonical(k): canonical(v) for k, v in value.items()}", "        self.value = value.copy()")
+v("d133-empty-list-content-unchecked", "C13", PBLK, "                if contents is None:\n                    raw_values = []  # the empty collection: [], ()\n                elif isinstance(contents, lark.tree.Tree) and (", "                if isinstance(contents, lark.tree.Tree) and (")
+
+v("d134-convert-records-requests-everything", "C10", VR, "            using=OrderedSet(self.columns_used_from_sources(using=using)[0]),", "            using=None,")
